@@ -2578,12 +2578,19 @@ impl<'a> Parser<'a> {
         let mut expr = if self.match_token(&TokenKind::New) {
             let callee = Rc::new(self.parse_member_expression()?);
             // Check for type arguments (<T>) or arguments (()
-            let (arguments, type_arguments) =
-                if self.check(&TokenKind::LParen) || self.check(&TokenKind::Lt) {
-                    self.parse_call_arguments()?
+            let (arguments, type_arguments) = if self.check(&TokenKind::Lt) {
+                // new X<T>(args), or without an argument list: new X<T>
+                let type_arguments = self.parse_optional_type_arguments()?;
+                if self.check(&TokenKind::LParen) {
+                    (self.parse_call_arguments()?.0, type_arguments)
                 } else {
-                    (vec![], None)
-                };
+                    (vec![], type_arguments)
+                }
+            } else if self.check(&TokenKind::LParen) {
+                self.parse_call_arguments()?
+            } else {
+                (vec![], None)
+            };
             let span = self.span_from(start);
             Expression::New(Box::new(NewExpression {
                 callee,
